@@ -81,35 +81,39 @@ Theorem C06_image_is_plain : forall fmt e t, wf_text_bytes fmt e t -> plain_labe
 Proof. exact text_image_plain. Qed.
 
 (* ---- (2) byte level ---- *)
-Definition C06_round_trip_statement (m : mode) : Prop :=
+Definition C06_round_trip_statement (kf : name_key) (m : mode) : Prop :=
   forall fmt e t, wf_text fmt t -> wf_text_bytes fmt e t ->
-    exists f t', TextFormat.serialize m fmt e t = Ok f /\ TextFormat.from_bytes fmt e f = Ok t' /\
+    exists f t', TextFormat.serialize kf m fmt e t = Ok f /\ TextFormat.from_bytes fmt e f = Ok t' /\
       (fmt = Unicode -> t_title t' = t_title t) /\ t_entries t' = t_entries t /\ t_dirty t' = false.
 (* the archives the writer builds lie in the domain of the bin-archive round trip C01 (wf_archive, fits32 of
    Proofs/BinSerializeConforms.v), and on them that round trip yields an observationally equal archive *)
 Theorem C06_image_in_C01_domain : forall fmt e t, wf_text_bytes fmt e t ->
   wf_archive (text_image fmt e t) /\ fits32 (text_image fmt e t).
 Proof. exact text_image_in_C01_domain. Qed.
-Theorem C06_bin_round_trip_premise : forall m, bin_round_trip_premise m.
+Theorem C06_bin_round_trip_premise : forall kf m, bin_round_trip_premise kf m.
 Proof. exact bin_round_trip_plain. Qed.
-(* the round trip on BYTES, both arithmetic profiles, all four encoding x endianness combinations *)
-Theorem C06_round_trip : forall m, C06_round_trip_statement m.
+(* the round trip on BYTES, both arithmetic profiles, all four encoding x endianness combinations, and EVERY sort key
+   of the label names [kf] (Model/BinFormat.v name_key): the big-endian label table of the library is ordered by the
+   decoded keys (Rust String order), which is the instance kf = "scalars of the decoded key"; no property of kf is
+   needed, because the keys sit on distinct addresses (the address tie-break makes the order total) and the parser
+   does not look at the order of the label table *)
+Theorem C06_round_trip : forall kf m, C06_round_trip_statement kf m.
 Proof. exact text_round_trip_bytes_final. Qed.
 
-Definition C06_layout_bytes_statement (m : mode) : Prop :=
+Definition C06_layout_bytes_statement (kf : name_key) (m : mode) : Prop :=
   forall fmt e t, wf_text_bytes fmt e t ->
-    exists f a', TextFormat.serialize m fmt e t = Ok f /\ BinFormat.from_bytes e f = Ok a' /\
+    exists f a', TextFormat.serialize kf m fmt e t = Ok f /\ BinFormat.from_bytes e f = Ok a' /\
       forall i k msg, nth_error (t_entries t) i = Some (k, msg) ->
         let off := entry_offset fmt t i in
         off mod 4 = 0 /\ read_labels a' off = Ok (Some [k]) /\ sliceN off (lenN (cell fmt msg)) (a_data a') = Some (cell fmt msg).
-Theorem C06_layout_bytes : forall m, C06_layout_bytes_statement m.
+Theorem C06_layout_bytes : forall kf m, C06_layout_bytes_statement kf m.
 Proof. exact text_layout_bytes_final. Qed.
 (* the same on the FILE through the independent format relation [conforms] (Proofs/BinFormatSpec.v: written from the format
    description, it mentions neither serialize nor from_bytes): the image conforms with a content that has no pointers and no
    strings, whose data region is the title cell followed by the message cells, and whose label map puts exactly [key] on
    every message offset, each a multiple of 4 *)
-Theorem C06_layout_conforms : forall m fmt e t, wf_text_bytes fmt e t ->
-  exists f c, TextFormat.serialize m fmt e t = Ok f /\ wfb f /\ conforms e f c /\
+Theorem C06_layout_conforms : forall kf m fmt e t, wf_text_bytes fmt e t ->
+  exists f c, TextFormat.serialize kf m fmt e t = Ok f /\ wfb f /\ conforms e f c /\
     c_ptrs c = [] /\ c_text c = [] /\
     c_data c = a_data (text_image fmt e t) /\ c_labels c = a_labels (text_image fmt e t) /\
     forall i k msg, nth_error (t_entries t) i = Some (k, msg) ->
@@ -149,33 +153,33 @@ Proof. exact utf16_invalid_rejected. Qed.
    set_title -> serialize -> from_bytes returns the title, exactly get_entries (same keys, same order, same messages) and
    dirty = false.  Unicode format, either endianness, either arithmetic profile; keys / title NUL-free ASCII (on which
    Shift-JIS is the identity), messages NUL-free Rust strings; tm_run is the model C07 is about. *)
-Theorem C06_history_round_trip : forall m e ops, Forall clean_op ops ->
+Theorem C06_history_round_trip : forall kf m e ops, Forall clean_op ops ->
   file_bound (text_image Unicode e (encode_text (tm_run ops))) < 2 ^ 32 ->
-  exists f, history_file m Unicode e ops = Ok f /\
+  exists f, history_file kf m Unicode e ops = Ok f /\
     parse_text Unicode e f = Ok (Some {| t_title := t_title (tm_run ops); t_entries := t_entries (tm_run ops); t_dirty := false |}).
 Proof. exact history_round_trip. Qed.
 (* the legacy format: keys, title and messages NUL-free ASCII; the format stores no title, so the parsed title is empty *)
-Theorem C06_history_round_trip_legacy : forall m e ops, Forall ascii_op ops ->
+Theorem C06_history_round_trip_legacy : forall kf m e ops, Forall ascii_op ops ->
   file_bound (text_image ShiftJIS e (tm_run ops)) < 2 ^ 32 ->
-  exists f, history_file m ShiftJIS e ops = Ok f /\
+  exists f, history_file kf m ShiftJIS e ops = Ok f /\
     parse_text ShiftJIS e f = Ok (Some {| t_title := []; t_entries := t_entries (tm_run ops); t_dirty := false |}).
 Proof. exact history_round_trip_legacy. Qed.
-Theorem C06_history_round_trip_lookup : forall m e ops, Forall clean_op ops ->
+Theorem C06_history_round_trip_lookup : forall kf m e ops, Forall clean_op ops ->
   file_bound (text_image Unicode e (encode_text (tm_run ops))) < 2 ^ 32 ->
-  exists f t', history_file m Unicode e ops = Ok f /\ parse_text Unicode e f = Ok (Some t') /\
+  exists f t', history_file kf m Unicode e ops = Ok f /\ parse_text Unicode e f = Ok (Some t') /\
     tm_keys t' = tm_keys (tm_run ops) /\ forall k, tm_get t' k = tm_get (tm_run ops) k.
 Proof. exact history_round_trip_lookup. Qed.
 (* the same for any in-memory archive value with distinct keys (not only reachable ones) *)
-Theorem C06_round_trip_decoded : forall m e t, NoDup (map fst (t_entries t)) -> clean_text t ->
+Theorem C06_round_trip_decoded : forall kf m e t, NoDup (map fst (t_entries t)) -> clean_text t ->
   file_bound (text_image Unicode e (encode_text t)) < 2 ^ 32 ->
-  exists f, TextFormat.serialize m Unicode e (encode_text t) = Ok f /\
+  exists f, TextFormat.serialize kf m Unicode e (encode_text t) = Ok f /\
     parse_text Unicode e f = Ok (Some {| t_title := t_title t; t_entries := t_entries t; t_dirty := false |}).
 Proof. exact text_round_trip_decoded. Qed.
 (* a history with an astral character, an escape sequence, a delete and a re-add, a BOM-like message; big endian *)
 Example C06_history_example :
   let ops := [TTitle [84]; TSet [107;49] [0x1F600; 92; 110; 97]; TSet [107;50] []; TDel [107;49]; TSet [107;49] [0xFEFF]] in
   Forall clean_op ops /\ file_bound (text_image Unicode BE (encode_text (tm_run ops))) < 2 ^ 32 /\
-  exists f, history_file Checked Unicode BE ops = Ok f /\
+  exists f, history_file key_bytes Checked Unicode BE ops = Ok f /\
     parse_text Unicode BE f = Ok (Some {| t_title := [84]; t_entries := [([107;50], []); ([107;49], [0xFEFF])]; t_dirty := false |}).
 Proof. exact history_example. Qed.
 
